@@ -447,7 +447,10 @@ def check(idx: Index, rep: Report, tier: str) -> str:
 
     def reads(fn):
         out = set()
+        called = {id(c.func) for c in calls_in(fn, local=False)}
         for n in walk_local(fn):
+            if isinstance(n, ast.Attribute) and id(n) in called and hf.cls is not None and n.attr in hf.cls.methods:
+                continue  # a call of a helper method is not a field read (its arguments are walked separately)
             if isinstance(n, ast.Attribute):
                 ch = attr_chain(n)
                 if ch and ch.startswith("self.") and ch not in ("self.op",):
